@@ -193,6 +193,50 @@ def run(ctx, col, tier):
               norm_src(bf) if bf is not None else "", "bf is not the constant 0: PointsToMST would not build a minimum spanning tree",
               stmt="bf0", definite=isinstance(bf, ast.Constant) and isinstance(bf.value, (int, float)))
 
+    # --- the constructor keeps the caller's options as given (table over the values the statement distinguishes)
+    col.rule("R-KEEP", "the constructor stores the branching limit and the root exemption exactly as given: every positive limit k (1 = no branching, 2, 3, ...) "
+             "and the 'no limit' value -1 reach the attachment loop unchanged (the stored expression is folded at k = 1, 2, 3, 7, -1 and at both flags)", floor=2, exhaustive=True)
+    ini = repo.get_def(f"{MST}.PointsToCuntzMST.__init__")
+    for prm, attr, wit in (("furcations", "furcations", (1, 2, 3, 7, -1)), ("exclude_soma", "exclude_soma", (True, False))):
+        st = [n for n in own_nodes(ini) if isinstance(n, ast.Assign) and len(n.targets) == 1 and norm_src(n.targets[0]) == f"self.{attr}"]
+        if len(st) != 1:
+            col.unresolved("R-KEEP", ini.qualname, ini.loc(), f"`self.{attr}` is bound once in the constructor", f"{len(st)} bindings", stmt=f"keep:{attr}")
+            continue
+        # read through local temporaries bound once before the store
+        env_defs = {}
+        for n in own_nodes(ini):
+            if isinstance(n, ast.Assign) and len(n.targets) == 1 and isinstance(n.targets[0], ast.Name):
+                env_defs.setdefault(n.targets[0].id, []).append(n.value)
+        bad = und = None
+        for w in wit:
+            try:
+                env = {prm: w}
+                for nm, vs in env_defs.items():
+                    if nm != prm and len(vs) == 1:
+                        try:
+                            env[nm] = Folder(repo, ini.module, None, dict(env)).eval(vs[0])
+                        except Unfoldable:
+                            pass
+                if prm in env_defs:  # the parameter itself is re-bound before the store: fold the re-binding first
+                    if len(env_defs[prm]) != 1:
+                        raise Unfoldable(st[0], "parameter re-bound more than once")
+                    env[prm] = Folder(repo, ini.module, None, dict(env)).eval(env_defs[prm][0])
+                got = Folder(repo, ini.module, None, env).eval(st[0].value)
+            except Unfoldable as x:
+                und = str(x)
+                break
+            if got != w or type(got) is not type(w):
+                bad = (w, got)
+                break
+        if und is not None:
+            col.unresolved("R-KEEP", ini.qualname, ini.loc(st[0]), f"`self.{attr}` is the `{prm}` the caller gave", f"cannot fold `{norm_src(st[0])}`: {und}", stmt=f"keep:{attr}")
+        else:
+            col.check(bad is None, "R-KEEP", ini.qualname, ini.loc(st[0]), f"`self.{attr}` is the `{prm}` the caller gave, for {wit}", norm_src(st[0]),
+                      f"`{norm_src(st[0])}` turns {prm}={bad[0] if bad else ''} into {bad[1] if bad else ''}: the caller's "
+                      + ("branching limit" if attr == "furcations" else "root exemption") + " is silently replaced", stmt=f"keep:{attr}", definite=True)
+    from ..rules import ignoredparam
+    ignoredparam.run(ctx, col, (MST,))
+
     # --- statements that carry the roles, matched three-way under one renaming
     col.text_group("R-ROLES", q, d, [
         ("pairwise Euclidean distances from coordinate differences", ["dis = np.linalg.norm(points.reshape((-1, 1, 3)) - points.reshape((1, -1, 3)), axis=2)"], "dist"),
